@@ -315,20 +315,31 @@ def run_corpus(ctx, collect):
         return
     for f in sorted(d.glob("*.json")):
         data = json.loads(f.read_text())
+        run_cases(ctx, collect, data, "corpus")
+    pairs = type_pair_table()
+    # every pair is checked against the oracle; for the model correspondence all of them (thorough) or a sample (quick)
+    keep = None if ctx.tier != "quick" else set(ctx.rng.sample(range(len(pairs["cases"])), min(160, len(pairs["cases"]))))
+    run_cases(ctx, collect, pairs, "type-pairs", keep)
+
+
+def run_cases(ctx, collect, data, tag, keep=None):
+    from py_gql import build_schema
+    if True:
         schema = build_schema(data["sdl"])
         w = CorpusWorld(data["sdl"], schema)
-        for case in data["cases"]:
+        for idx, case in enumerate(data["cases"]):
             ctx.count()
-            ctx.stat("corpus")
+            ctx.stat(tag)
             res = real_chain(schema, case["text"])
-            collect.append((w, case["text"], res, "corpus:" + case.get("id", ""), ""))
+            if keep is None or idx in keep:
+                collect.append((w, case["text"], res, "corpus:" + case.get("id", ""), ""))
             exp = case.get("spec_valid")
             if res["outcome"].startswith("raise"):
                 raises(ctx, w, case["text"], res, "corpus:" + case.get("id", ""), "")
                 continue
             if exp is None:
                 continue
-            ctx.nontrivial(("corpus", case["text"]))
+            ctx.nontrivial((tag, case["text"]))
             if exp and res["outcome"] != "ok":
                 ctx.fail("valid-rejected:%s:%s" % ("+".join(reporting(res)), case.get("sig", "corpus")),
                          "corpus: a valid document is rejected", {"kind": "valid", "sdl": data["sdl"], "text": case["text"],
@@ -354,6 +365,69 @@ def run_corpus(ctx, collect):
                               "rules": reporting(res), "rules2": reporting(r2), "label": "corpus", "feature": ""})
 
 
+# ---------------------------------------------------------------------------
+# variable type x position type, all wrapper shapes up to depth 3 (oracle: IsVariableUsageAllowed / AreTypesCompatible
+# of the June-2018 specification = valid_ops.var_allowed). `Schema.is_subtype` is hand-modelled in the Lean model, so
+# these pairs are what ties it (and the real one) to the specification.
+# ---------------------------------------------------------------------------
+
+def _shapes(depth):
+    """wrapper shapes over Int: no `nonNull` directly inside `nonNull`"""
+    out = [("named", "Int")]
+    frontier = [("named", "Int")]
+    for _ in range(depth):
+        nxt = []
+        for t in frontier:
+            nxt.append(("list", t))
+            if t[0] != "nonNull":
+                nxt.append(("nonNull", t))
+        out += nxt
+        frontier = nxt
+    return out
+
+
+def _ty_text(t):
+    return t[1] if t[0] == "named" else ("[%s]" % _ty_text(t[1]) if t[0] == "list" else _ty_text(t[1]) + "!")
+
+
+def _lit_text(t):
+    return "1" if t[0] == "named" else ("[%s]" % _lit_text(t[1]) if t[0] == "list" else _lit_text(t[1]))
+
+
+_TYPE_PAIRS = None
+
+
+def type_pair_table():
+    global _TYPE_PAIRS
+    from gen import valid_ops as vo
+    if _TYPE_PAIRS is not None:
+        return _TYPE_PAIRS
+    shapes = _shapes(3)
+    fields, locs = [], []
+    for i, lt in enumerate(shapes):
+        for ld in (False, True):
+            name = "f%d%s" % (i, "d" if ld else "")
+            fields.append("%s(a: %s%s): Int" % (name, _ty_text(lt), " = " + _lit_text(lt) if ld else ""))
+            locs.append((name, lt, ld))
+    sdl = "type Query { %s }\n" % ", ".join(fields)
+    cases = []
+    for vt in shapes:
+        vdefs = [None] if vt[0] == "nonNull" else [None, _lit_text(vt), "null"]
+        for vd in vdefs:
+            for name, lt, ld in locs:
+                ok = vo.var_allowed(vt, vd not in (None, "null"), lt, ld)
+                sig = "%s@%s%s%s" % (vo._shape(vt), vo._shape(lt), "" if vd is None else (":vnull" if vd == "null" else ":vdef"),
+                                     ":ldef" if ld else "")
+                text = "query($v: %s%s) { r: %s(a: $v) }" % (_ty_text(vt), "" if vd is None else " = " + vd, name)
+                case = {"id": "pair:" + sig, "text": text, "spec_valid": ok,
+                        "sig": ("variable-type-pair:" if ok else "all_variable_usages_allowed:variable-type-pair:") + sig}
+                if not ok:
+                    case["rules"] = ["VariablesInAllowedPositionChecker"]
+                cases.append(case)
+    _TYPE_PAIRS = {"sdl": sdl, "cases": cases}
+    return _TYPE_PAIRS
+
+
 class CorpusWorld:
     def __init__(self, sdl, schema):
         self.sdl = sdl
@@ -374,7 +448,7 @@ def run(ctx):
     run_corpus(ctx, collect)
     n_worlds = ctx.n(8, 40)
     docs_per_world = ctx.n(3, 6)
-    budget = 17 if ctx.tier == "quick" else 220
+    budget = 17 if ctx.tier == "quick" else 175
     ctx.direct_deadline = time.time() + budget
     for i in range(n_worlds):
         if time.time() > ctx.direct_deadline:
